@@ -71,7 +71,7 @@ theorem comment_text_same (c : Str) : dropWs (readBack c) = dropWs c := by
   split
   · rename_i h
     simp only [isSpaceStr, Bool.and_eq_true, List.all_eq_true] at h
-    rw [dropWs_allWs c h.2]
+    rw [dropWs_allWs c h.2]; rfl
   · have : dropWs (' ' :: dropWs c) = dropWs (dropWs c) := by simp [dropWs, isWs]
     rw [this, dropWs_idem]
 
@@ -80,7 +80,7 @@ theorem header_dropped (nx : Nat) :
     classify nx headerLine = .comment (' ' :: headerText) ∧ keepComment (' ' :: headerText) = false := by
   constructor
   · have := classify_hash nx headerLine (' ' :: headerText ++ ['\n']) (by simp [headerLine, dropWs, isWs])
-    rw [this]; congr 1; exact stripNl_append_nl (' ' :: headerText)
+    rw [this]; exact congrArg Kind.comment (stripNl_append_nl (' ' :: headerText))
   · rw [headerText_eq]; decide +kernel
 
 /-- the comment list handed to `io.to_swc`: optional `source: …` + empty line, then the tree's comments -/
